@@ -105,6 +105,26 @@ class AofCheck(PropertyCheck):
                 if not peek().startswith("L "):
                     sp.bad = "expected the log bytes, got %r" % peek(); break
                 i += 2
+            elif k == "WW":
+                f = line.split()
+                after_open = False
+                if not peek().startswith("SCHED "):
+                    sp.bad = "expected a schedule report, got %r" % peek(); break
+                if peek() != "SCHED ww parked blocked":
+                    sp.bad = ("a second write command ran while the first was parked between its handler and its log record "
+                              "(%s): the log order is no longer the order of execution" % peek()); break
+                i += 1
+                n1 = int(f[3])
+                sp.raw("C %s %s" % (f[2], " ".join(f[4:4 + n1])))
+                sp.raw("C %s %s" % (f[4 + n1], " ".join(f[5 + n1:])))
+                for _ in range(2):
+                    if not peek().startswith("R "):
+                        sp.bad = "expected a reply, got %r" % peek(); break
+                    i += 1
+                if sp.bad: break
+                if not peek().startswith("L "):
+                    sp.bad = "expected the log bytes, got %r" % peek(); break
+                i += 2
             elif k == "RWK":
                 # a REWRITEAOF that dies at a failpoint: no write, the reply is the death
                 after_open = False
